@@ -62,15 +62,27 @@ def assigned_names(body):
     return out
 
 
-def loop_spec(eng, fr):
-    """the contract's description of the loop being entered (by ordinal within the function), or None"""
+def loop_ordinals(fi):
+    """loops of a function numbered by syntactic position (line order), nested functions excluded"""
+    idx = getattr(fi, "_loop_idx", None)
+    if idx is None:
+        from .extract import walk_own
+        loops = sorted((n for n in walk_own(fi.node) if isinstance(n, (ast.For, ast.While))), key=lambda n: (n.lineno, n.col_offset))
+        idx = {id(n): i + 1 for i, n in enumerate(loops)}
+        fi._loop_idx = idx
+    return idx
+
+
+def loop_spec(eng, fr, node=None):
+    """the contract's description of the loop being entered (by syntactic ordinal within the function), or None"""
     fi = fr.func
     if fi is None:
         return None
     c = eng.contracts.get(getattr(fi, "qualname", None)) or {}
     loops = c.get("loops") or {}
-    fr.loop_ordinal += 1
-    return loops.get(fr.loop_ordinal)
+    if not loops or node is None:
+        return None
+    return loops.get(loop_ordinals(fi).get(id(node)))
 
 
 def havoc(eng, path, v, name):
@@ -96,11 +108,24 @@ def havoc(eng, path, v, name):
     raise Limitation(f"cannot havoc loop variable {name} of value {v!r}")
 
 
+def havoc_kind(eng, path, v, name, spec):
+    kinds = (spec or {}).get("kinds") or {}
+    if isinstance(v, MapList) and name in kinds:
+        from .values import fresh_maplist
+        n = eng.fresh(name + "_len", IntS)
+        path.assume(n >= 0)
+        return fresh_maplist(eng, name, kinds[name], n)
+    r = havoc(eng, path, v, name)
+    if isinstance(r, MapList):
+        path.assume(r.length >= 0)
+    return r
+
+
 def run_for(eng, node, fr, path):
     if node.orelse:
         raise Limitation("for-else")
     it = eng.ev(node.iter, fr, path)
-    spec = loop_spec(eng, fr)
+    spec = loop_spec(eng, fr, node)
     if isinstance(it, SetV):
         # iteration order of a set is arbitrary (E7): the contract must say the loop is order-independent
         if spec is not None and spec.get("set_order") == "any":
@@ -210,6 +235,7 @@ def mentions(t, k):
 def eval_inv(eng, spec, key, fr, path, extra):
     from .vc import eval_spec
     env = dict(fr.env)
+    env["ARGS"] = getattr(fr, "args0", {})
     env.update(extra)
     return eng.truth(eval_spec(eng, spec[key], env, path, fr.func), path)
 
@@ -217,15 +243,16 @@ def eval_inv(eng, spec, key, fr, path, extra):
 def cut_for(eng, node, fr, path, it, spec):
     mods = [n for n in assigned_names(node.body) if n in fr.env]
     name = f"{fr.func.qualname}: loop@{node.lineno}"
-    g0 = eval_inv(eng, spec, "inv", fr, path, {"K": 0, "SEQ": it})
+    entry = dict(fr.env)
+    g0 = eval_inv(eng, spec, "inv", fr, path, {"K": 0, "SEQ": it, "ENTRY": entry})
     path.oblige(f"{name}: invariant holds on entry", zterm(g0), {"kind": "loop-init"})
     which = path.choose([("iterate", True), ("exit", True)], f"loop@{node.lineno}")
     for n in mods:
-        fr.env[n] = havoc(eng, path, fr.env[n], n)
+        fr.env[n] = havoc_kind(eng, path, fr.env[n], n, spec)
     if which == 0:
         k = eng.fresh("K", IntS)
         path.assume(z3.And(k >= 0, k < it.length))
-        path.assume(zterm(eval_inv(eng, spec, "inv", fr, path, {"K": k, "SEQ": it})))
+        path.assume(zterm(eval_inv(eng, spec, "inv", fr, path, {"K": k, "SEQ": it, "ENTRY": entry})))
         eng.assign(node.target, it.getter(k), fr, path)
         try:
             eng.run_body(node.body, fr, path)
@@ -233,16 +260,16 @@ def cut_for(eng, node, fr, path, it, spec):
             pass
         except BreakExc:
             return
-        g = eval_inv(eng, spec, "inv", fr, path, {"K": k + 1, "SEQ": it})
+        g = eval_inv(eng, spec, "inv", fr, path, {"K": k + 1, "SEQ": it, "ENTRY": entry})
         path.oblige(f"{name}: invariant preserved", zterm(g), {"kind": "loop-step"})
         raise PathEnd("loop body checked")
-    path.assume(zterm(eval_inv(eng, spec, "inv", fr, path, {"K": it.length, "SEQ": it})))
+    path.assume(zterm(eval_inv(eng, spec, "inv", fr, path, {"K": it.length, "SEQ": it, "ENTRY": entry})))
 
 
 def run_while(eng, node, fr, path):
     if node.orelse:
         raise Limitation("while-else")
-    spec = loop_spec(eng, fr)
+    spec = loop_spec(eng, fr, node)
     if spec is None or "inv" not in spec:
         # concrete loops: run while the guard is decided
         n = 0
@@ -263,12 +290,13 @@ def run_while(eng, node, fr, path):
                 continue
     mods = [n for n in assigned_names(node.body) if n in fr.env]
     name = f"{fr.func.qualname}: loop@{node.lineno}"
-    g0 = eval_inv(eng, spec, "inv", fr, path, {})
+    entry = dict(fr.env)
+    g0 = eval_inv(eng, spec, "inv", fr, path, {"ENTRY": entry})
     path.oblige(f"{name}: invariant holds on entry", zterm(g0), {"kind": "loop-init"})
     which = path.choose([("iterate", True), ("exit", True)], f"loop@{node.lineno}")
     for n in mods:
-        fr.env[n] = havoc(eng, path, fr.env[n], n)
-    path.assume(zterm(eval_inv(eng, spec, "inv", fr, path, {})))
+        fr.env[n] = havoc_kind(eng, path, fr.env[n], n, spec)
+    path.assume(zterm(eval_inv(eng, spec, "inv", fr, path, {"ENTRY": entry})))
     guard = eng.truth(eng.ev(node.test, fr, path), path)
     if which == 0:
         path.assume(zterm(guard))
@@ -282,7 +310,7 @@ def run_while(eng, node, fr, path):
             pass
         except BreakExc:
             return
-        g = eval_inv(eng, spec, "inv", fr, path, {})
+        g = eval_inv(eng, spec, "inv", fr, path, {"ENTRY": entry})
         path.oblige(f"{name}: invariant preserved", zterm(g), {"kind": "loop-step"})
         if var0 is not None:
             from .vc import eval_spec
